@@ -17,6 +17,10 @@ CHECKS = {
    technique='property-based testing with a mutation-operator catalogue: boundary-valid candidates and single-rule violations (all other commitments re-sealed by the reference model) through the miner submit pipeline of a real node; verdict oracle + whole-attempt refusal (full state scan unchanged, descendants refused)',
    text='A generated valid history brings a real node to a context; then candidates are built on the tip or on a side branch: boundary-valid ones (must be attached) and 63 single-rule mutations (must be refused, state unchanged by full column scan, block remembered invalid, descendants refused even when they make the branch heaviest). Because the reference model recomputes reward, DAO, roots and chain root for the mutated body, exactly the targeted rule is broken, so a dropped check in the node shows up as an accepted candidate.',
    note='Dummy PoW; size/cycle limits at the exact boundary are not generated. The catalogue is finite: rules without an operator are not exercised.'),
+ 'C04': dict(level='exploration', ref='DESIGN.md §2 C04',
+   technique='model-based property-based testing: an independent admissibility model (liveness incl. in-block / pooled ancestors, deps and dep groups, header deps, capacity, since and maturity with exact epoch arithmetic, script outcome) decides generated transactions; the real node decides them in probe blocks, in the committed block and through the pool (dry run and submit) on two nodes that reached the same chain by different histories',
+   text='Forked histories bring two real nodes (one reorged onto the main chain, one fed it linearly) to generated positions (epoch heads / tails, window offsets); 20-34 candidate transactions per case are built around every boundary (since number / epoch fraction / median time exact and one short, maturity exact and one block short, occupied and summed capacity exact and one over, dep-group expansion 2048 / 2049, dep group hiding an input, same-block parents and double spends, unknown / side-chain header deps, failing and missing scripts). Each model-rejected candidate goes alone into a probe block that must be refused for that transaction with the tip unmoved, all model-accepted ones into the block both nodes must accept; every live candidate also goes through test_accept_tx (and some through submit_local_tx) at every tip; verdict, cycles and fee must agree between the two nodes.',
+   note='Script outcomes are always_success / always_failure / missing code cell (C05 covers the VM); the cycle-limit boundary is not generated; pool policy rejections (fee rate, duplicates, RBF rules 2-5) are counted, not judged. Two tx-pool defects are known findings.'),
  'C05': dict(level='exploration', ref='DESIGN.md §2 C05',
    technique='metamorphic property-based testing: one-shot script run vs chunked / resumed / signalled runs over generated RV64 programs and repository test binaries, exhaustive split-point sweeps for small programs',
    text='Programs (repository spawn/exec/load binaries driven by generated data, plus generated C programs compiled to RV64 at check time) are run once with an unlimited budget and then under generated chunk schedules, state resumes, complete() and pause/resume/stop signals and budgets around the exact cost; verdict and cycles must agree. Small programs get every split point (and every pair for tiny ones).',
